@@ -37,7 +37,14 @@ def from_residual_result(I, m, a, dt):
         if 'anyhow::Error' in d_err: e = VObj('anyhow', inner=e)
         elif d_err.endswith('fmt::Error') or d_err == 'std::fmt::Error': pass
         else:
-            raise Unsupported(f'from_residual {s_err} -> {d_err}')
+            # a From impl of the crate (thiserror #[from], hand-written conversions)
+            dseg = re.sub(r'<.*$', '', d_err).split('::')[-1]; sseg = re.sub(r'<.*$', '', s_err).split('::')[-1]
+            hits = [b for k_, bl in I.bodies.items() if k_.endswith('::from') for b in bl
+                    if b.kind == 'fn' and len(b.args) == 1 and (b.ret or '').strip().split('::')[-1] == dseg and re.sub(r'<.*$', '', b.args[0][1].strip()).split('::')[-1] == sseg]
+            if len(hits) == 1: e = I.run_body(hits[0], [e])
+            else:
+                try: e = I.call(f'<{d_err} as From<{s_err}>>::from', [e])
+                except Unsupported: raise Unsupported(f'from_residual {s_err} -> {d_err}')
     return VEnum('Result', 'Err', [e])
 @model(r'^<' + OPT + r'<.*> as (?:std::ops::)?FromResidual<.*>>::from_residual$')
 def from_residual_option(I, m, a, dt): return none()
@@ -520,3 +527,13 @@ def opt_clone(I, m, a, dt):
     return some(I.call(f'<{m.group(1)} as Clone>::clone', [VRef(Cell(v), [])]))
 @model(r'^<' + OPT + r'<.*> as Default>::default$')
 def opt_default(I, m, a, dt): return none()
+
+# ---- vec![a, b, ..] lowering of this toolchain: Box<MaybeUninit<[T; N]>> written through a raw pointer, then into_vec ----
+@model(r'^(?:std::boxed::|alloc::boxed::)?Box::<\[.*; \d+\]>::new_uninit$')
+def box_new_uninit(I, m, a, dt):
+    # MaybeUninit { uninit: (), value: ManuallyDrop { value: MaybeDangling(T) } }
+    b = VObj('box', cell=Cell(VTuple([VUnit(), VStruct('ManuallyDrop', [VStruct('MaybeDangling', [UNINIT])])]))); b.fields = [b]; return b
+@model(r'^(?:std::boxed::|alloc::boxed::)?box_assume_init_into_vec_unsafe::<.*>$')
+def box_into_vec(I, m, a, dt):
+    from .coll import vec
+    return vec(list(a[0].cell.val.items[1].items[0].items[0].items))
